@@ -39,6 +39,11 @@ type c01RunParams struct {
 	Snapshots bool        `json:"snapshots"` // harness calls SnapshotProgress concurrently (component kind)
 	Reps      int         `json:"reps"`      // consecutive runs on the same metrics instance
 	Desc      string      `json:"desc"`
+	// TimeStages: every second iteration times two stages with t.Time, one of them with the empty name
+	TimeStages bool `json:"time_stages,omitempty"`
+	// Push: the run pushes to a (loopback) push gateway; TeardownFail: its scenario-level cleanup fails
+	Push         bool `json:"push,omitempty"`
+	TeardownFail bool `json:"teardown_fail,omitempty"`
 }
 
 var c01Outcomes = []metrics.ResultType{metrics.SuccessResult, metrics.FailedResult, metrics.DroppedResult}
@@ -135,6 +140,28 @@ func init() {
 				cse := core.MkCase("C01", kind, i, seed, p)
 				cse.Race = true
 				cse.Procs = pick(r, 1, 2, 16)
+				cse.TimeoutMS = 90000
+				cs = append(cs, cse)
+			}
+			// the process-wide metrics instance (what the command line uses), iterations that time stages of their
+			// own (one with an empty name), and a push gateway that must receive the final counts also when the
+			// scenario's teardown fails
+			ng := 6
+			if tier == "thorough" {
+				ng = 36
+			}
+			for i := 0; i < ng; i++ {
+				cc := pick(r, 1, 2, 4)
+				spec := engine.Spec{Mode: "users", Concurrency: cc, MaxDurationMS: 60000, MaxIterations: uint64(20 + r.IntN(200)), IgnoreDropped: true, GlobalMetrics: true}
+				if i%3 == 1 {
+					spec = engine.RateSpec(pick(r, "constant", "staged"), cc, 5, cc)
+					spec.MaxIterations, spec.MaxDurationMS, spec.IgnoreDropped, spec.GlobalMetrics = uint64(20+r.IntN(100)), 60000, true, true
+				}
+				p := c01RunParams{Spec: spec, FailEvery: pick(r, 0, 2, 3), Body: "instant", Reps: 1 + i%2, TimeStages: i%2 == 0, Push: i%3 != 1, TeardownFail: i%3 == 0}
+				p.Desc = fmt.Sprintf("mode=%s c=%d limit=%d failEvery=%d global-metrics timeStages=%v push=%v teardownFail=%v", spec.Mode, cc, spec.MaxIterations, p.FailEvery, p.TimeStages, p.Push, p.TeardownFail)
+				cse := core.MkCase("C01", "run", 6000+i, seed, p)
+				cse.Race = i%2 == 0
+				cse.Solo = true
 				cse.TimeoutMS = 90000
 				cs = append(cs, cse)
 			}
@@ -432,6 +459,9 @@ var c01Flavours = []int{engine.BFail, engine.BFailNow, engine.BPanicString, engi
 func c01Scenario(p *c01RunParams, passed, failed *atomic.Int64, salt uint64) f1testing.ScenarioFn {
 	return func(t *f1testing.T) f1testing.RunFn {
 		engine.OtherHandle.Store(t)
+		if p.TeardownFail {
+			t.Cleanup(func() { t.FailNow() })
+		}
 		return func(t *f1testing.T) {
 			id := engine.IDOf(t)
 			if p.Body == "latemark" {
@@ -458,6 +488,10 @@ func c01Scenario(p *c01RunParams, passed, failed *atomic.Int64, salt uint64) f1t
 				return
 			}
 			bodyWork(p.Body, id*2654435761+salt)
+			if p.TimeStages && id%2 == 0 {
+				t.Time("", func() {})
+				t.Time("step", func() {})
+			}
 			if p.FailEvery > 0 && id%uint64(p.FailEvery) == 0 {
 				failed.Add(1)
 				// every way of failing counts once as failed: marks, stopping marks, panics, marks that log,
@@ -502,6 +536,12 @@ func c01RunOnce(c *core.Case, o *core.Outcome, p c01RunParams, inst *metrics.Met
 	var passed, failed atomic.Int64
 	ctx, cancel := context.WithCancel(context.Background())
 	defer cancel()
+	var gw *engine.Gateway
+	if p.Push {
+		gw = engine.NewGateway(200)
+		defer gw.Close()
+		p.Spec.PushGateway = gw.URL()
+	}
 	r := engine.Execute(ctx, p.Spec, l, c01Scenario(&p, &passed, &failed, c.Rng("salt").Uint64()), nil, inst)
 	if r.NewErr != nil {
 		o.Inconc("harness: cannot build run: %v", r.NewErr)
@@ -537,6 +577,18 @@ func c01RunOnce(c *core.Case, o *core.Outcome, p c01RunParams, inst *metrics.Met
 	}
 	if !c01Compare(o, p.Desc, "at return", su, fa, dr, passed.Load(), failed.Load(), engine.IterationCounts(fams)) {
 		return
+	}
+	if gw != nil {
+		n, last, bad := gw.Pushes()
+		if n == 0 || bad > 0 {
+			o.Violate("push-missing:"+p.Desc, "the run was given a push gateway; it received %d pushes (%d unreadable) (%s)", n, bad, p.Desc)
+			return
+		}
+		if last["success"] != su || last["fail"] != fa || last["dropped"] != dr {
+			o.Violate("push-stale:"+p.Desc, "the last of %d pushes to the gateway carried success=%d fail=%d dropped=%d, the finished run's result is %d/%d/%d: the exported counts are not the run's (%s)", n, last["success"], last["fail"], last["dropped"], su, fa, dr, p.Desc)
+			return
+		}
+		o.AddObs("pushes_checked", int64(n))
 	}
 	time.Sleep(250 * time.Millisecond)
 	r.Result.GetTotals()
